@@ -59,7 +59,7 @@ Proof. exact G3_endpoints. Qed.
 Print Assumptions C05_component_end_to_end.
 
 (* ---------- every positioner, Brandes-Koepf and the NetworkSimplex positioner included (Model/PipelineBK.v) ---------- *)
-From Autog Require Import PipelineBK BKPipeline BKPipeline2.
+From Autog Require Import PipelineBK E2EBridge BKPipeline BKPipeline2.
 
 Theorem C05_component_end_to_end_any_positioner : forall bk o g g' x, component_input g -> modelled_p5 (o_p5 o) ->
   layout_component_x bk o g = Ok (g', x) -> E3_statement g g'.
